@@ -51,29 +51,37 @@ prop("C01", "exploration",
           "a run is non-trivial if at least one snapshot write was accepted and round-trip checked, and distinct if its "
           "plan digest is new and it reached an observation hash no earlier run reached")
 prop("C06", "exploration",
-     quick=[("tracks", "fast", 1400), ("mixed", "fast", 500), ("foreign", "fast", 700), ("cross", "fast", 500)],
-     thorough=[("tracks", "fast", 60000), ("mixed", "fast", 30000), ("tracks", "san", 3000), ("foreign", "fast", 40000), ("cross", "fast", 30000)],
+     quick=[("tracks", "fast", 1400), ("mixed", "fast", 500), ("foreign", "fast", 700), ("cross", "fast", 500),
+            ("tracks_disk_faulty", "fast", 800)],
+     thorough=[("tracks", "fast", 60000), ("mixed", "fast", 30000), ("tracks", "san", 3000), ("foreign", "fast", 40000), ("cross", "fast", 30000),
+               ("tracks_disk_faulty", "fast", 30000)],
      relevant=["setter_ok", "foreign_getter_snapshot_checked"],
      rule="seeded histories of the 25 field setters (incl. per-slot cue/loop setters) interleaved over several tracks; "
           "non-trivial = at least one setter accepted and differentially checked against the previous full observation; "
           "distinct = new plan digest reaching a new observation hash")
 prop("C07", "exploration",
-     quick=[("crates", "fast", 2500), ("mixed", "fast", 400), ("cross", "fast", 500)],
-     thorough=[("crates", "fast", 120000), ("mixed", "fast", 30000), ("crates", "san", 4000), ("cross", "fast", 30000)],
+     quick=[("crates", "fast", 2500), ("mixed", "fast", 400), ("cross", "fast", 500),
+            ("crates_disk_faulty", "fast", 500)],
+     thorough=[("crates", "fast", 120000), ("mixed", "fast", 30000), ("crates", "san", 4000), ("cross", "fast", 30000),
+               ("crates_disk_faulty", "fast", 20000)],
      relevant=["op:create_sub", "op:set_parent", "op:remove_crate", "op:set_name", "op:create_root"],
      rule="seeded crate-operation histories (create root/sub[_after], rename, re-parent incl. cycles, remove) on small forests; "
           "every query is compared with a forest model after each step; non-trivial = at least one crate operation executed; "
           "distinct = new plan digest reaching a new observation hash")
 prop("C08", "exploration",
-     quick=[("members", "fast", 2200), ("mixed", "fast", 400), ("cross", "fast", 500)],
-     thorough=[("members", "fast", 100000), ("mixed", "fast", 30000), ("members", "san", 4000), ("cross", "fast", 30000)],
+     quick=[("members", "fast", 2200), ("mixed", "fast", 400), ("cross", "fast", 500),
+            ("members_disk_faulty", "fast", 600)],
+     thorough=[("members", "fast", 100000), ("mixed", "fast", 30000), ("members", "san", 4000), ("cross", "fast", 30000),
+               ("members_disk_faulty", "fast", 20000)],
      relevant=["op:add_track", "op:remove_from", "op:clear"],
      rule="seeded membership histories with an id-skew prologue so that track, crate and membership-row ids diverge; "
           "crate.tracks()/containing_crates() compared with a relation model after each step; non-trivial = at least one "
           "membership operation executed; distinct = new plan digest reaching a new observation hash")
 prop("C09", "exploration",
-     quick=[("crates2", "fast", 2200), ("members2", "fast", 600), ("table", "fast", 1200), ("cross", "fast", 500)],
-     thorough=[("crates2", "fast", 100000), ("members2", "fast", 40000), ("crates2", "san", 3000), ("table", "fast", 60000), ("cross", "fast", 30000)],
+     quick=[("crates2", "fast", 2200), ("members2", "fast", 600), ("table", "fast", 1200), ("cross", "fast", 500),
+            ("members2_disk_faulty", "fast", 600), ("table_disk_faulty", "fast", 400)],
+     thorough=[("crates2", "fast", 100000), ("members2", "fast", 40000), ("crates2", "san", 3000), ("table", "fast", 60000), ("cross", "fast", 30000),
+               ("members2_disk_faulty", "fast", 20000), ("table_disk_faulty", "fast", 15000), ("cross_disk_faulty", "fast", 15000)],
      relevant=["op:create_sub_after", "op:create_root_after", "op:set_parent", "op:remove_crate", "op:add_track", "op:p_add", "op:p_update",
                "op:e_add", "op:e_remove"],
      rule="2.x-only histories of positioned/un-positioned creates, moves, renames, removals and entity add/remove/clear; "
@@ -91,9 +99,11 @@ prop("C10", "exploration",
           "reload of a non-empty library; distinct = new plan digest reaching a new observation hash")
 prop("C16", "exploration",
      quick=[("mixed_pure", "fast", 900), ("tracks_pure", "fast", 300), ("hostile_pure", "fast", 900), ("table_pure", "fast", 300),
-            ("mixed_pure_disk", "fast", 400)],
+            ("mixed_pure_disk", "fast", 400),
+            ("corrupt", "fast", 500), ("corruptgrid", "fast", 180)],
      thorough=[("mixed_pure", "fast", 50000), ("tracks_pure", "fast", 20000), ("crates_pure", "fast", 20000), ("hostile_pure", "fast", 40000),
-               ("table_pure", "fast", 20000), ("mixed_pure_disk", "fast", 20000)],
+               ("table_pure", "fast", 20000), ("mixed_pure_disk", "fast", 20000),
+               ("corrupt", "fast", 20000), ("corruptgrid", "fast", 3600)],
      relevant=["purity_checked"],
      rule="in every state reached by the mixed workload the monitor brackets the full block of observing calls with VFS "
           "write/truncate counters, sqlite3_total_changes and the image hash, and repeats the observation with the clock "
